@@ -20,7 +20,7 @@ fn c08_get_datetime_contract() {
 /// minutes domain (bypass-map / clutter-map generation times): same contract, minutes constructor
 #[kani::proof_for_contract(get_datetime)]
 #[kani::solver(kissat)]
-fn c08_get_datetime_contract_minutes() {
+fn c08_minutes_get_datetime_contract() {
     let d: u16 = kani::any();
     let t: u16 = kani::any();
     get_datetime(d, Duration::minutes(t as i64));
